@@ -10,7 +10,6 @@ Open Scope N_scope.
 Definition golden_any_wild : str := [40;94;91;42;93;91;42;93;36;124;40;63;60;61;47;41;91;42;93;91;42;93;36;124;94;91;42;93;91;42;93;47;124;40;63;60;61;47;41;91;42;93;91;42;93;47;124;92;91;46;42;63;93;124;91;42;93;124;91;63;93;124;92;36;92;123;92;42;91;97;45;122;65;45;90;48;45;57;95;93;42;63;125;41]%N.
 Definition golden_any_wild_flags : N := 32.
 Definition golden_fingerprints : list str := [
-  [54;48;99;49;57;56;53;48;102;51;101;102;52;57;54;50;50;56;97;52;97;98;51;53;102;101;101;53;56;98;102;100]%N (* conv_regex 60c19850f3ef496228a4ab35fee58bfd *);
   [56;56;55;50;49;49;52;98;51;54;53;97;50;53;57;56;54;98;52;55;54;48;102;99;97;97;52;52;53;48;50;49]%N (* iter_wildcard_names 8872114b365a25986b4760fcaa445021 *);
   [53;51;97;97;53;102;97;100;49;48;50;98;51;57;53;48;52;99;98;57;53;57;50;53;57;101;102;48;57;49;101;54]%N (* has_anonymous_wildcards 53aa5fad102b39504cb959259ef091e6 *);
   [97;54;98;48;52;50;100;55;48;48;57;54;101;99;52;102;102;54;97;102;49;53;57;51;49;99;97;52;53;57;51;53]%N (* default_used_names a6b042d70096ec4ff6af15931ca45935 *);
